@@ -96,6 +96,7 @@ Consume ==
                      ELSE IF e.idx # want THEN <<V(k, "restart_lost_or_moved_breakpoint", e.cmd, want, e.idx)>>
                      ELSE (IF want = Exited /\ e.code # ExitCode THEN <<V(k, "wrong_exit_code", e.cmd, ExitCode, e.code)>> ELSE <<>>)
                           \o (IF e.nums_kept THEN <<>> ELSE <<V(k, "restart_renumbered_breakpoints", e.cmd, "same numbers", "changed")>>)
+                          \o (IF e.stale = 0 THEN <<>> ELSE <<V(k, "process_left_behind", e.cmd, "previous process gone", e.stale)>>)
                           \o (IF want # Exited THEN PatchChecks(k, e, tbp) ELSE <<>>))
           [] e.cmd = "drop" ->
                \* C11: no process (no task of it) may remain for a program the debugger launched
